@@ -209,6 +209,12 @@ bool QXmppRosterManager::handleStanza(const QDomElement &element)
         return false;
     }
 
+    // Roster requests of type 'get' are not implemented by a client; do not swallow them, the
+    // client answers unhandled IQ requests with an error (RFC 6120, 8.2.3).
+    if (element.attribute(u"type"_s) == u"get") {
+        return false;
+    }
+
     QXmppRosterIq rosterIq;
     rosterIq.parse(element);
 
@@ -217,6 +223,7 @@ bool QXmppRosterManager::handleStanza(const QDomElement &element)
         // send result iq
         QXmppIq returnIq(QXmppIq::Result);
         returnIq.setId(rosterIq.id());
+        returnIq.setTo(rosterIq.from());
         client()->sendPacket(returnIq);
 
         // store updated entries and notify changes
